@@ -103,6 +103,13 @@ theorem C15_hull_corners_distinct_foreground (b : Bin) :
     (∀ p ∈ hullModel b, b.get p.1 p.2 = true) ∧ (hullModel b).Nodup :=
   ⟨fun p hp => foreground_get b p (grahamModel_subset _ p hp), grahamModel_nodup _ (foreground_nodup b)⟩
 
+/-- **fill_convexhull ⊇ input** for the model of `polygon.fill_convexhull` on boolean images (hull
+corners, scan-line `fill_polygon` in the float arithmetic of the Python code, then
+`canvas[bwimg] = 1`): every set pixel of the input is set in the result, for every image. -/
+theorem C15_fill_convexhull_superset (b : Bin) (y x : Int) (h : b.get y x = true) :
+    (fillHullModel b).get y x = true :=
+  fillHullModel_superset b y x h
+
 /-! ### non-vacuity -/
 
 /-- a pass really deletes pixels: the top row of a 2×3 block matches the north-edge template -/
